@@ -6,6 +6,7 @@
    Definitions only; executable.  Retry delays come from SlskGen.RetryGen (regenerated from user/manager.py). *)
 From Coq Require Import ZArith List Bool Arith.
 From SlskGen Require Import RetryGen.
+From SlskGen Require Export TrackGen.
 From Slsk Require Import C15.Spec.
 Import ListNotations.
 Open Scope nat_scope.
@@ -30,18 +31,26 @@ Inductive out := OFrame (k : skind) | OState (s : tst) | OArm (d : Z).
 Definition absent (dq : list (nat * nat * bool)) (at_ : list skind) : user := mkU false 0 Untracked [] PGone None dq at_ false.
 Definition init : user := absent [] [].
 
-Definition apply_req (r : req) (fl : nat) : nat := match r with RAdd f => Nat.lor fl f | RRem f => Nat.ldiff fl f end.
+(* request.operation(request.flag): add_flag / remove_flag, GENERATED (SlskGen.TrackGen) *)
+Definition apply_req (r : req) (fl : nat) : nat := match r with RAdd f => apply_add fl f | RRem f => apply_rem fl f end.
 Definition req_flag (r : req) : nat := match r with RAdd f => f | RRem f => f end.
 
 Definition set_pc (u : user) (p : pc) : user := mkU (present u) (flags u) (st u) (queue u) p (armed u) (deq u) (att u) (conf u).
 
-(* `if tracked_user.queue.empty(): del self._tracked_users[name]; return` else next loop round *)
-Definition exit_check (u : user) : user := match queue u with [] => absent (deq u) (att u) | _ => set_pc u PIdle end.
+(* The decisions of _tracking_task are GENERATED: [worker_decide prev new is_retry queue_empty] (SlskGen.TrackGen) lists, in
+   source order, what the worker does with a dequeued request. *)
+Definition wact_eqb (a b : wact) : bool :=
+  match a, b with
+  | WCancelRetry, WCancelRetry | WCancelRetryAwait, WCancelRetryAwait | WRemoveUser, WRemoveUser | WSetUntracked, WSetUntracked
+  | WExitDrop, WExitDrop | WExit, WExit | WAttempt, WAttempt => true
+  | _, _ => false
+  end.
+Definition has (a : wact) (l : list wact) : bool := existsb (wact_eqb a) l.
+Definition qempty (q : list req) : bool := match q with [] => true | _ => false end.
 
-(* flags = 0 branch after the retry task has been cancelled (not awaited) *)
-Definition after_cancel (u : user) (prev : nat) : user :=
-  if Nat.eqb prev 0 then exit_check u
-  else mkU (present u) (flags u) (st u) (queue u) PSendRemove (armed u) (deq u) (att u ++ [SRem]) (conf u).
+(* the exit test at the end of the flags = 0 branch (`if tracked_user.queue.empty(): ... del entry; return`) *)
+Definition exit_check (u : user) : user :=
+  if has WExitDrop (worker_decide 1 0 false (qempty (queue u))) then absent (deq u) (att u) else set_pc u PIdle.
 
 (* _request_untracking returned (sent or failed): _set_tracking_state(UNTRACKED), then the exit check *)
 Definition finish_remove (u : user) : user * list out :=
@@ -60,12 +69,14 @@ Definition dequeue (u : user) : user :=
   | r :: q =>
       let prev := flags u in
       let new := apply_req r prev in
-      let retry := Nat.eqb (req_flag r) 0 in
-      if Nat.eqb new 0 then
-        after_cancel (mkU (present u) new (st u) q (wpc u) None (deq u ++ [(prev, new, retry)]) (att u) (conf u)) prev
-      else if Nat.eqb prev 0 || retry then
-        mkU (present u) new (st u) q PSendAdd (armed u) (deq u ++ [(prev, new, retry)]) (att u ++ [SAdd]) (conf u)
-      else mkU (present u) new (st u) q (wpc u) (armed u) (deq u ++ [(prev, new, retry)]) (att u) (conf u)
+      let retry := is_retry_req (req_flag r) in
+      let acts := worker_decide prev new retry (qempty q) in
+      let arm := if has WCancelRetry acts then None else armed u in      (* retry task cancelled, not awaited *)
+      let dq := deq u ++ [(prev, new, retry)] in
+      if has WRemoveUser acts then mkU (present u) new (st u) q PSendRemove arm dq (att u ++ [SRem]) (conf u)
+      else if has WAttempt acts then mkU (present u) new (st u) q PSendAdd arm dq (att u ++ [SAdd]) (conf u)
+      else if has WExitDrop acts then absent dq (att u)
+      else mkU (present u) new (st u) q PIdle arm dq (att u) (conf u)         (* back to `await queue.get()` *)
   end.
 
 Definition enqueue (u : user) (r : req) : user :=
